@@ -211,8 +211,8 @@ def check(prop, tier, run: Run, replay_case=None):
     cases = [c for c in gen.cases if c["Qh"] > 0 or c["Qc"] > 0]
     if replay_case is not None:
         cases = [replay_case["case"]["input"]]
-    k = max(1, len(cases) // (1500 if tier == "quick" else 12000))
-    cases = cases[seed() % k:: k]
+    from ..common import sample
+    cases = sample(cases, 1500 if tier == "quick" else 12000, 15)
     with Pool(16, initializer=_init) as pool:
         results = pool.map(one_case, list(enumerate(cases)), chunksize=16)
     evs, skipped = [], {}
